@@ -320,6 +320,8 @@ PLANS = {
     "C06": dict(level="model_checking", assumptions=TRUST + ["values of merge calls / outputs are named (source, position) by exact byte equality with the values the sources hold"],
                 mc=[MC("MCMerger", "MCMerger.cfg", workers=8), MC("MCMerger", "MCMerger_4x3.cfg", workers=8),
                     MC("MCMerger", "MCMerger_revtie.cfg", workers=8, expect="fail:OutPrefixOk"),
+                    # thorough: every overlap pattern of 4 sources over 4 keys (442 368 states) and of 5 sources over 3 keys (193 536)
+                    MC("MCMerger", "MCMerger_4x4.cfg", workers=8, quick=False), MC("MCMerger", "MCMerger_5x3.cfg", workers=8, quick=False),
                     # liveness: every next() consumes an entry of each popped source; iteration ends and stays ended
                     MC("MCMerger", "MCMerger_live.cfg", workers=4),
                     MC("MCMerger", "MCMerger_live_bad.cfg", workers=2, expect="fail:Progress")],
